@@ -71,6 +71,17 @@ func runC18(c *Ctx) error {
 		return err
 	}
 	{
+		var aerr error
+		c18AbCases(c, func(ops []string, tag string) {
+			if aerr == nil {
+				aerr = c18One(c, "ab;"+strings.Join(ops, ";"), tag)
+			}
+		})
+		if aerr != nil {
+			return aerr
+		}
+	}
+	{
 		var nerr error
 		c18NaCases(c, func(line, tag string) {
 			if nerr == nil {
@@ -132,6 +143,10 @@ func c18One(c *Ctx, input, class string) error {
 		obs := c18RunCm(head, toks[1:])
 		c.Case(input, obs)
 		c.Count("cm:" + class)
+	case "ab":
+		line, obs := c18RunAb(toks[1:])
+		c.Case(line, obs)
+		c.Count("ab:" + class)
 	case "na":
 		var draws []string
 		for _, d := range toks[1:] {
